@@ -36,7 +36,7 @@ func init() {
 		id: "C03", withTestdata: true,
 		run: func(c *Ctx) {
 			ruleChannelGuards(c, "C03.1")
-			ruleNoEarlyExit(c, "C03.2", "(*InjectorProviderCallStmt).generateChannelCloseStatement", "(*InjectorChainStmt).Stmt", "generateStmts", "(*Graph).buildPoolStmtsSimple")
+			ruleNoEarlyExit(c, "C03.2", "(*InjectorProviderCallStmt).generateChannelCloseStatement", "(*InjectorChainStmt).Stmt#emits", "generateStmts", "(*Graph).buildPoolStmtsSimple")
 			ruleSpawnFirst(c, "C03.3")
 			ruleWaitBeforeReturn(c, "C03.4")
 			ruleChainWrapped(c, "C03.5")
